@@ -12,6 +12,9 @@ script ops (JSON):
                              time: C02 owns `prepare`), so that the model needs no model of `prepare`
   ["copy", i, attrs] ["merge", [ids]] ["translate", i, t] ["scale", i, k, o|None] ["scalexyz", i, fx, fy, fz, o|None]
   ["rotate", i, R(9), o|None] ["flatten", i, dim] ["normalize", i, centered] ["toorigin", i] ["edit", i, v, c, x]
+  round 2:  ["copyx", i, copy_attributes, copy_connectivity]   (connectivity of the source is queried first, so caches exist)
+            ["cattr", i]  vertices.create_attribute("w", float, 3, dense=True)     ["sattr", i, v, [x,y,z]]  a[v] = [x,y,z]
+            ["eattr", i, v, c, x]   r = a[v]; r[c] = x   (row view: writes through)
 """
 import os, tempfile
 from fractions import Fraction
@@ -22,6 +25,9 @@ LEAN_MODULES = ["Mouette.Props.C06"]
 REQUIRED_THEOREMS = [
     "copy_equal_disjoint", "merge_is_disjoint_union", "merge_indices_in_block", "transform_exact", "inplace_exact",
     "alias_free_run", "translate_round_trip", "scale_round_trip", "rotate_round_trip", "legacy_merge_aliases", "normalize_bbox",
+    # round 2
+    "copy_switches", "copy_isolated", "conn_own_run", "legacy_copy_shares_connectivity", "merge_pointcloud_first",
+    "rotate_about_origin", "scale_xyz_round_trip", "scale_xyz_default_origin", "wfx_run",
 ]
 TRUSTED = [
     "Lean 4.33.0 kernel; axioms ⊆ {propext, Classical.choice, Quot.sound}",
@@ -38,7 +44,9 @@ ASSUMPTIONS = [
     "producers (procedural generators, loaders, boundary extraction) are monitored for alias-freedom, not modelled",
     "normalize is only exercised on meshes whose bounding box is not a point",
 ]
-RULE = ("random histories (<= 9 ops quick / <= 16 thorough) over up to 5 small meshes (point clouds, polylines, triangle/quad "
+RULE = ("[round 2: copy with copy_attributes / copy_connectivity switches on meshes carrying a vertex attribute (then edited on "
+        "either side), merges of mixed kinds with a point cloud first, rotations about origins != 0, scale_xyz with negative "
+        "factors; attribute rows and connectivity-handler identity observed for every mesh after every op] random histories (<= 9 ops quick / <= 16 thorough) over up to 5 small meshes (point clouds, polylines, triangle/quad "
         "surfaces, tets; float/int dtype; raw lists or from_arrays): copy, merge (with repeated inputs), translate, scale, "
         "scale_xyz, rotate (rational orthogonal matrices), flatten, normalize, translate_to_origin, in-place vertex edits, "
         "round trips weighted in; all meshes and caller arrays observed after every op; non-trivial = distinct history with "
@@ -118,11 +126,45 @@ def _fmt_elts(l):
     return " ".join([str(len(l))] + [" ".join([str(len(e))] + [str(u) for u in e]) for e in l])
 
 
-def _fmt_mesh(m):
+def _attr_rows(m):
+    """rows of the vertex attribute "w" (None if absent)"""
+    import numpy as np
+    if not m.vertices.has_attribute("w"): return None
+    a = np.asarray(m.vertices.get_attribute("w").as_array(len(m.vertices))).reshape(-1, 3)
+    return [[Fraction(float(x)) for x in row] for row in a]
+
+
+def _conn_probe(m):
+    """a connectivity answer per vertex (sorted), None when the class has no handler / the query fails"""
+    c = getattr(m, "connectivity", None)
+    if c is None: return None
+    try:
+        if hasattr(c, "vertex_to_vertices"): return [sorted(int(u) for u in c.vertex_to_vertices(v)) for v in range(len(m.vertices))]
+        return [sorted(int(u) for u in c.vertex_to_faces(v)) for v in range(len(m.vertices))]
+    except Exception:  # noqa  (connectivity queries belong to C01/C03)
+        return None
+
+
+def _conn_state(meshes, i):
+    """(handler points back at its own mesh, number of other meshes holding the same handler object)"""
+    c = getattr(meshes[i], "connectivity", None)
+    if c is None: return 1, 0
+    own = 1 if getattr(c, "mesh", None) is meshes[i] else 0
+    shared = sum(1 for j, m in enumerate(meshes) if j != i and getattr(m, "connectivity", None) is c)
+    return own, shared
+
+
+def _fmt_mesh(m, meshes=None, idx=None):
     E, F, C = _mesh_elements(m)
     cs = _coords(m)
-    return (f"{DIM.get(type(m).__name__, '?')} {len(cs)}" + "".join(" " + " ".join(_fr(x) for x in v) for v in cs)
-            + f" E {_fmt_elts(E)} F {_fmt_elts(F)} C {_fmt_elts(C)}")
+    out = (f"{DIM.get(type(m).__name__, '?')} {len(cs)}" + "".join(" " + " ".join(_fr(x) for x in v) for v in cs)
+           + f" E {_fmt_elts(E)} F {_fmt_elts(F)} C {_fmt_elts(C)}")
+    if meshes is not None:
+        rows = _attr_rows(m)
+        w = "N" if rows is None else " ".join([str(len(rows))] + [" ".join(_fr(x) for x in r) for r in rows])
+        own, shared = _conn_state(meshes, idx)
+        out += f" W {w} K {own} {shared}"
+    return out
 
 
 def _apply(meshes, arrays, op):
@@ -138,6 +180,14 @@ def _apply(meshes, arrays, op):
             meshes.append(m)
             if arr is not None: arrays.append((len(meshes) - 1, arr, arr.copy()))
         elif k == "copy": meshes.append(copy(meshes[op[1]], copy_attributes=bool(op[2])))
+        elif k == "copyx":
+            _conn_probe(meshes[op[1]])          # fill the lazy caches of the source
+            meshes.append(copy(meshes[op[1]], copy_attributes=bool(op[2]), copy_connectivity=bool(op[3])))
+        elif k == "cattr": meshes[op[1]].vertices.create_attribute("w", float, 3, dense=True)
+        elif k == "sattr": meshes[op[1]].vertices.get_attribute("w")[op[2]] = [float(Fraction(x)) for x in op[3]]
+        elif k == "eattr":
+            r = meshes[op[1]].vertices.get_attribute("w")[op[2]]
+            r[op[3]] = float(Fraction(op[4]))
         elif k == "merge": meshes.append(merge([meshes[i] for i in op[1]]))
         elif k == "translate": T.translate(meshes[op[1]], _vec(op[2]))
         elif k == "scale": T.scale(meshes[op[1]], float(Fraction(op[2])), None if op[3] is None else _vec(op[3]))
@@ -170,7 +220,7 @@ def impl_observe(case):
     meshes, arrays, recs = [], [], []
     for op in case["ops"]:
         err = _apply(meshes, arrays, op)
-        st = " ".join([str(len(meshes))] + [_fmt_mesh(m) for m in meshes])
+        st = " ".join([str(len(meshes))] + [_fmt_mesh(m, meshes, i) for i, m in enumerate(meshes)])
         recs.append((err + " " if err else "") + st)
     return " | ".join(recs)
 
@@ -194,7 +244,11 @@ def model_request(case):
         k = op[0]
         if k == "new":
             toks += ["new", str(len(op[2]))] + [x for row in op[2] for x in row] + _req_elts(op[3]) + _req_elts(op[4]) + _req_elts(op[5])
-        elif k == "copy": toks += ["copy", str(op[1])]
+        elif k == "copy": toks += ["copy", str(op[1])] if not op[2] else ["copyx", str(op[1]), "1", "0"]
+        elif k == "copyx": toks += ["copyx", str(op[1]), "1" if op[2] else "0", "1" if op[3] else "0"]
+        elif k == "cattr": toks += ["cattr", str(op[1])]
+        elif k == "sattr": toks += ["sattr", str(op[1]), str(op[2])] + list(op[3])
+        elif k == "eattr": toks += ["eattr", str(op[1]), str(op[2]), str(op[3]), op[4]]
         elif k == "merge": toks += ["merge", str(len(op[1]))] + [str(i) for i in op[1]]
         elif k == "translate": toks += ["translate", str(op[1])] + list(op[2])
         elif k == "scale": toks += ["scale", str(op[1]), op[2]] + _req_opt(op[3])
@@ -245,9 +299,18 @@ def _shadow_apply(sh, op):
     if k == "new":
         V = [[_F(x) for x in row] for row in op[2]]
         E, F, C = op[3], op[4], op[5]
-        sh.append({"V": V, "E": E, "F": F, "C": C, "dim": 3 if C else 2 if F else 1 if E else 0})
-    elif k == "copy":
-        sh.append({kk: (list(map(list, vv)) if isinstance(vv, list) else vv) for kk, vv in sh[op[1]].items()})
+        sh.append({"V": V, "E": E, "F": F, "C": C, "dim": 3 if C else 2 if F else 1 if E else 0, "W": None})
+    elif k in ("copy", "copyx"):
+        src = sh[op[1]]
+        c = {kk: (list(map(list, vv)) if isinstance(vv, list) else vv) for kk, vv in src.items()}
+        c["W"] = [list(r) for r in src["W"]] if (op[2] and src.get("W") is not None) else None
+        sh.append(c)
+    elif k == "cattr":
+        sh[op[1]] = dict(sh[op[1]], W=[[Fraction(0)] * 3 for _ in sh[op[1]]["V"]])
+    elif k == "sattr":
+        W = [list(r) for r in sh[op[1]]["W"]]; W[op[2]] = [_F(x) for x in op[3]]; sh[op[1]] = dict(sh[op[1]], W=W)
+    elif k == "eattr":
+        W = [list(r) for r in sh[op[1]]["W"]]; W[op[2]][op[3]] = _F(op[4]); sh[op[1]] = dict(sh[op[1]], W=W)
     elif k == "merge":
         V, E, F, C, off = [], [], [], [], 0
         for i in op[1]:
@@ -256,7 +319,7 @@ def _shadow_apply(sh, op):
             E += [[u + off for u in e] for e in m["E"]]; F += [[u + off for u in e] for e in m["F"]]
             C += [[u + off for u in e] for e in m["C"]]
             off += len(m["V"])
-        sh.append({"V": V, "E": E, "F": F, "C": C, "dim": max(sh[i]["dim"] for i in op[1])})
+        sh.append({"V": V, "E": E, "F": F, "C": C, "dim": max(sh[i]["dim"] for i in op[1]), "W": None})
     elif k == "translate":
         t = [_F(x) for x in op[2]]; mapv(op[1], lambda p: [p[j] + t[j] for j in range(3)])
     elif k == "scale":
@@ -306,6 +369,10 @@ def _alias_pairs(meshes, arrays):
     for (mi, arr, _) in arrays:
         for (i, a, v) in ent:
             if np.shares_memory(arr, v): out.append(("array", mi, i, a))
+    ats = [(i, m.vertices.get_attribute("w")._data) for i, m in enumerate(meshes) if m.vertices.has_attribute("w")]
+    for x in range(len(ats)):
+        for y in range(x + 1, len(ats)):
+            if np.shares_memory(ats[x][1], ats[y][1]): out.append((ats[x][0], "attr", ats[y][0], "attr"))
     return out
 
 
@@ -323,13 +390,13 @@ def _oracle_script(case):
         err = _apply(meshes, arrays, op)
         if err:
             dt = ""
-            if k not in ("new", "copy", "merge"):
+            if k not in ("new", "copy", "merge", "copyx"):
                 v0 = meshes[op[1]].vertices[0]
                 dt = "/" + str(getattr(v0, "dtype", type(v0).__name__))
             F(f"C06/{tag}/raises({err}){dt}", f"`{k}` raised {err}", f"step {step}: {op}")
             return out
         _shadow_apply(sh, op)
-        if k in ("new", "copy", "merge"):
+        if k in ("new", "copy", "merge", "copyx"):
             creator[len(meshes) - 1] = tag
             m, want = meshes[-1], sh[-1]
             E, Fc, C = _mesh_elements(m)
@@ -341,13 +408,44 @@ def _oracle_script(case):
         # every mesh must hold exactly its expected coordinates: the target moved once by the requested map, nobody else moved
         for i, m in enumerate(meshes):
             if not _same_coords(_coords(m), sh[i]["V"]):
-                if k in ("new", "copy", "merge"):
+                if k in ("new", "copy", "merge", "copyx"):
                     kind_ = "result-differs" if i == len(meshes) - 1 else "moved-other-mesh"
                 else:
                     kind_ = "wrong-coords" if i == op[1] else "moved-other-mesh"
                 F(f"C06/{tag if k != 'new' else 'new'}/{kind_}", f"after `{k}` mesh #{i} (made by {creator.get(i)}) does not hold the expected coordinates",
                   f"step {step} op {op}: mesh #{i} = {[[_fr(x) for x in p] for p in _coords(m)][:6]}, expected {[[_fr(x) for x in p] for p in sh[i]['V']][:6]}")
                 return out
+        # attributes: every mesh holds exactly its expected attribute rows (copies carry them iff copy_attributes)
+        for i, m in enumerate(meshes):
+            rows, want = _attr_rows(m), sh[i].get("W")
+            if (rows is None) != (want is None):
+                F(f"C06/{k}/attribute-presence", f"after `{k}` mesh #{i}: attribute 'w' {'missing' if rows is None else 'present'}, expected the opposite",
+                  f"step {step} op {op}"); return out
+            if rows is not None and not _same_coords(rows, want):
+                kind_ = "attribute-differs" if (k in ("copyx", "copy") and i == len(meshes) - 1) or (k in ("sattr", "eattr", "cattr") and i == op[1]) else "attribute-of-other-mesh-changed"
+                F(f"C06/{k}/{kind_}", f"after `{k}` the attribute rows of mesh #{i} (made by {creator.get(i)}) are not the expected ones",
+                  f"step {step} op {op}: {[[_fr(x) for x in r] for r in rows][:4]} expected {[[_fr(x) for x in r] for r in want][:4]}"); return out
+        # connectivity handlers: every mesh owns its handler, which points back at that mesh, and answers for that mesh
+        for i, m in enumerate(meshes):
+            own, shared = _conn_state(meshes, i)
+            c_i = getattr(m, "connectivity", None)
+            shared = sum(1 for j in range(i) if c_i is not None and getattr(meshes[j], "connectivity", None) is c_i)   # blame the later mesh
+            if shared or not own:
+                key = f"C06/alias/{creator.get(i)}/connectivity"
+                if not any(f["key"] == key for f in out):
+                    F(key, f"a mesh made by `{creator.get(i)}` shares its connectivity handler with another mesh / the handler points at another mesh",
+                      f"step {step}: mesh #{i}: handler.mesh is own mesh = {bool(own)}, {shared} other mesh(es) hold the same handler object")
+        if k == "copyx":
+            got = _conn_probe(meshes[-1])
+            if got is not None:
+                nvs = len(sh[-1]["V"])
+                if hasattr(meshes[-1].connectivity, "vertex_to_vertices"):
+                    want = [sorted({e[1 - j] for e in sh[-1]["E"] for j in (0, 1) if e[j] == v}) for v in range(nvs)]
+                else:
+                    want = [sorted(fi for fi, f in enumerate(sh[-1]["F"]) if v in f) for v in range(nvs)]
+                if got != want:
+                    F("C06/copyx/connectivity-answers", "the connectivity of the copy does not answer for the copy's elements",
+                      f"step {step} op {op}: {got} expected {want}"); return out
         for (mi, arr, orig) in arrays:
             import numpy as np
             if not np.array_equal(arr, orig):
@@ -474,8 +572,11 @@ def _dy(rng, lo=-16, hi=16, den=4):
 
 
 def _base_mesh(rng):
+    return _base_mesh_kind(rng, rng.choice(["points", "polyline", "polyline", "surface", "surface", "surface", "volume"]))
+
+
+def _base_mesh_kind(rng, kind):
     """small base mesh; element lists canonicalised by the library (prepared form)"""
-    kind = rng.choice(["points", "polyline", "polyline", "surface", "surface", "surface", "volume"])
     integer = rng.random() < 0.2
     if kind == "points": nv, E, F, C = rng.randint(1, 4), [], [], []
     elif kind == "polyline":
@@ -514,7 +615,18 @@ def _rotation(rng):
 def _script(rng, maxops):
     ops, nv, flat = [], [], []      # nv[i] = vertex count; flat[i] = bbox may be degenerate in some direction (fine) / point
     n_ops = rng.randint(3, maxops)
-    ops.append(_base_mesh(rng)); nv.append(len(ops[-1][2]))
+    has_w, kinds, pending_now = [], [], []
+
+    def add_base(force=None):
+        b = _base_mesh(rng) if force is None else _base_mesh_kind(rng, force)
+        ops.append(b); nv.append(len(b[2])); has_w.append(False)
+        kinds.append(3 if b[5] else 2 if b[4] else 1 if b[3] else 0)
+    if rng.random() < 0.25:
+        add_base(force="points"); add_base(force=rng.choice(["polyline", "surface", "volume"]))
+        ops.append(["merge", [0, 1] + ([0] if rng.random() < 0.3 else [])])
+        nv.append(sum(nv[j] for j in ops[-1][1])); has_w.append(False); kinds.append(kinds[1])
+    else:
+        add_base()
     pending = []                      # inverse ops queued for round trips
 
     def opt_orig():
@@ -522,17 +634,38 @@ def _script(rng, maxops):
     while len(ops) < n_ops:
         r = rng.random()
         i = rng.randrange(len(nv))
+        if pending_now:
+            ops.append(pending_now.pop()); continue
         if pending and rng.random() < 0.6:
             ops.append(pending.pop()); continue
+        if rng.random() < 0.12:
+            # vertex attribute "w": create / write / update a row in place
+            if not has_w[i]:
+                ops.append(["cattr", i]); has_w[i] = True
+                pending_now.append(["sattr", i, rng.randrange(nv[i]), [_dy(rng) for _ in range(3)]])
+            elif rng.random() < 0.4: ops.append(["sattr", i, rng.randrange(nv[i]), [_dy(rng) for _ in range(3)]])
+            else: ops.append(["eattr", i, rng.randrange(nv[i]), rng.randrange(3), _dy(rng)])
+            continue
         if r < 0.10 and len(nv) < 5:
-            ops.append(_base_mesh(rng)); nv.append(len(ops[-1][2]))
+            add_base(force="points" if rng.random() < 0.3 else None)
         elif r < 0.22 and len(nv) < 5:
-            ops.append(["copy", i, rng.random() < 0.5]); nv.append(nv[i])
+            if rng.random() < 0.7:
+                ops.append(["copyx", i, rng.random() < 0.5, rng.random() < 0.6]); has_w.append(has_w[i] and ops[-1][2])
+            else:
+                ops.append(["copy", i, False]); has_w.append(False)
+            nv.append(nv[i]); kinds.append(kinds[i])
+            if has_w[-1] and rng.random() < 0.7:        # ... then edit the copy's (or the source's) attribute
+                tgt = rng.choice([len(nv) - 1, i])
+                pending_now.append(["eattr", tgt, rng.randrange(nv[tgt]), rng.randrange(3), _dy(rng)])
         elif r < 0.40 and len(nv) < 5:
             ids = [rng.randrange(len(nv)) for _ in range(rng.randint(1, 3))]
             if rng.random() < 0.35: ids.append(ids[0])
+            pcs = [j for j in range(len(nv)) if kinds[j] == 0]
+            if pcs and rng.random() < 0.5:      # mixed kinds: a point cloud FIRST, its vertices must count in the running offset
+                ids = [rng.choice(pcs)] + [j for j in ids if kinds[j] != 0][:2]
             if sum(nv[j] for j in ids) <= 14:
-                ops.append(["merge", ids]); nv.append(sum(nv[j] for j in ids))
+                ops.append(["merge", ids]); nv.append(sum(nv[j] for j in ids)); has_w.append(False)
+                kinds.append(max(kinds[j] for j in ids))
         elif r < 0.58:
             t = [_dy(rng, -8, 8) for _ in range(3)]
             ops.append(["translate", i, t])
@@ -584,7 +717,7 @@ def nontrivial(case, obs):
     if case["t"] != "script": return False
     seen = False
     for op in case["ops"]:
-        if op[0] in ("copy", "merge"): seen = True
+        if op[0] in ("copy", "merge", "copyx"): seen = True
         elif seen and op[0] != "new": return True
     return False
 
@@ -593,8 +726,19 @@ def classify(case, obs):
     if case["t"] != "script": return ["producer:" + case["name"] + (":skipped" if "skip" in obs else "")]
     ks = ["op:" + op[0] + ("/" + op[1] if op[0] == "new" else "") for op in case["ops"]]
     ks += ["merge:repeated-input" for op in case["ops"] if op[0] == "merge" and len(set(op[1])) < len(op[1])]
+    dims, sh = [], []
+    for op in case["ops"]:
+        if op[0] == "new": dims.append(3 if op[5] else 2 if op[4] else 1 if op[3] else 0)
+        elif op[0] in ("copy", "copyx"): dims.append(dims[op[1]])
+        elif op[0] == "merge":
+            if len(op[1]) > 1 and dims[op[1][0]] == 0 and any(dims[j] > 0 for j in op[1][1:]): ks.append("merge:pointcloud-first-mixed")
+            if len({dims[j] for j in op[1]}) > 1: ks.append("merge:mixed-kinds")
+            dims.append(max(dims[j] for j in op[1]))
+        if op[0] == "copyx": ks.append(f"copyx:attrs={int(bool(op[2]))}/conn={int(bool(op[3]))}")
+        if op[0] == "rotate" and op[3] is not None: ks.append("rotate:origin!=0")
+        if op[0] == "scalexyz" and any(str(f).startswith("-") for f in op[2:5]): ks.append("scalexyz:negative-factor")
     ks += ["err" for r in obs.split(" | ") if r.startswith("err")]
-    ks.append(f"meshes:{sum(1 for op in case['ops'] if op[0] in ('new', 'copy', 'merge'))}")
+    ks.append(f"meshes:{sum(1 for op in case['ops'] if op[0] in ('new', 'copy', 'merge', 'copyx'))}")
     return ks
 
 
@@ -607,12 +751,14 @@ def shrink(case, still):
     ops = list(case["ops"])
 
     def valid(ops):
-        n = 0
+        n, w = 0, []
         for op in ops:
-            if op[0] == "new": n += 1; continue
+            if op[0] == "new": n += 1; w.append(False); continue
             ids = op[1] if op[0] == "merge" else [op[1]]
             if any(i >= n for i in ids): return False
-            if op[0] in ("copy", "merge"): n += 1
+            if op[0] in ("copy", "merge", "copyx"): n += 1; w.append(op[0] != "merge" and bool(op[2]) and w[op[1]])
+            if op[0] == "cattr": w[op[1]] = True
+            if op[0] in ("sattr", "eattr") and not w[op[1]]: return False
         return True
     i = len(ops) - 1
     while i >= 0:
